@@ -7,7 +7,7 @@ META = {
     "driver_id": "Edit",
     "coq_targets": ["Props/C07.vo", "Extract/Extract_Edit.vo"],
     "technique": 'Coq invariant / refinement proofs over the executable edit-machine model + step-by-step differential correspondence of the extracted model with the implementation + direct oracle on the implementation',
-    "level_text": "Proved in Coq about the executable model (Props/C07.v, all closed under the global context): C07_set_pixels, C07_mask_of, C07_pixels (array primitives: a write changes exactly the in-range pixels given and keeps the shape; a mask is exactly the in-range indices carrying the label, strictly increasing; get_pixels returns the node's time frame and exactly its pixels); W_seg (every node labels at least one pixel, only in its own time frame; every non-zero label is a node; 0 is no node) is preserved by each basic action under its documented precondition: C07_W_seg_add_node / _add_node_gen, C07_W_seg_del_node / _del_node_px, C07_W_seg_upd_seg_grow / _shrink / _gen, C07_W_seg_add_edge, C07_W_seg_del_edge, C07_W_seg_upd_attrs, C07_W_seg_upd_track (with C07_pre_write_of_W_seg linking the general mid-stroke forms to W_seg); for the whole paint/erase stroke, for every state and every stroke: C07_paint_exact (a stroke that returns normally leaves the array exactly as painted, same shape) C07_paint_error_restores (a stroke that raises at any point, also after the rollback of a refused forceable action, leaves the previous array bit for bit) and, for states satisfying W_seg in which 'time' is not a regionprops key, C07_paint_undo (Tracks.undo right after a successful stroke succeeds and restores the previous array bit for bit; the example C07_undo_needs_W_seg shows the hypothesis is needed). Every clause has a theorem about the model. C07_run_edge_calls (every state reachable from a well-formed state by any sequence, of any length, of edge-level calls - add / delete edge with and without force, swap, track queries, fresh ids - satisfies the complete invariant WF: dictionaries, forest, track ids, lineage ids, lookups, label/node correspondence, fresh features; induction over the call list); C07_run_node_calls (the same reachability statement with UserAddNode and UserDeleteNode included, accepted or refused, each UserAddNode respecting its documented preconditions - integer time / track id, no caller-supplied lineage id, and with a segmentation a non-zero id and background pixels of its own frame; Proofs/EditWFNodeExample.v shows three accepted calls outside these preconditions that break the invariant); C07_sessions (from a well-formed state with an empty history, EVERY state reached along ANY sequence - of any length - of calls of the WHOLE public interface of the edit machine - edge, swap, node, attribute and stroke edits, undo, redo, queries - accepted or refused, satisfies the complete invariant WF; hypotheses: three configuration facts no call changes, and the documented per-call preconditions of UserAddNode / node calls without segmentation at the moment each call is made; strokes, edge calls, attribute updates, undo and redo have none); C07_paint and C07_run_paint_calls (every accepted stroke yields a well-formed state; every refused stroke too, the rolled-back one included); C07_user_actions_are_generated (the seven composite user actions of the model equal, for all arguments, the code translated on every run from the current user_actions/*.py); C07_sessions_from_construction (the start state need not be assumed well formed: for every valid raw solution - forest, labels and nodes one-to-one, fresh feature table, true oracle partitions - the state constructed by enabling the core features with recomputation is well formed, so every session over the whole interface from it stays well formed). C07_core_is_generated: one level further down, the queries, the node-id counter, Tracks.undo / redo and the seven basic actions with their inverses of the model equal the code translated on every run from solution_tracks.py, tracks.py, _track_annotator.py and actions/*.py (Gen/Core_gen.v; statement in Proofs/CoreTieBundle.v). C07_direct_add_node_refuted: the known finding F-07b as machine-checked refutations (a direct UserAddNode outside its documented preconditions is accepted and breaks the correspondence; three witnesses reproduce it on the implementation and are reported as KNOWN-FINDING). C07_sessions_from_any_construction: the same for a graph that arrives with managed features of its own - the constructor as the code runs it (Model/EditCtor.v construct_any: the id lookups filled by a scan of the supplied ids, every core feature the first node carries activated at face value, every other one computed) yields a well-formed state whenever the detected features are valid on all nodes (supplied_ok), for every combination of supplied and computed features, and every session from it stays well formed (Proofs/EditCtor.v; EditCtorExample.v shows that invalid supplied ids break it); tie: constructor correspondence on every generated raw solution (harness/ctor.py). C07_accessors_are_generated: the array and attribute accessors the other translators take as primitives - Tracks.get_pixels, set_pixels, get_time, get_times, get_node_attr, get_nodes_attr, _set_node_attr, _set_nodes_attr - equal, on stated domains, the code translated on every run from data_model/tracks.py (Gen/Accessors_gen.v, harness/translate_accessors.py, Proofs/AccessorsTie.v; decorators such as lru_cache, overrides in SolutionTracks and a segmentation property are refused); outside the domains Python raises where the model is total (missing node / frame for get_pixels, index outside the frame for set_pixels): whatever get_pixels returns lies inside the domain of set_pixels.",
+    "level_text": "Proved in Coq about the executable model (Props/C07.v, all closed under the global context): C07_set_pixels, C07_mask_of, C07_pixels (array primitives: a write changes exactly the in-range pixels given and keeps the shape; a mask is exactly the in-range indices carrying the label, strictly increasing; get_pixels returns the node's time frame and exactly its pixels); W_seg (every node labels at least one pixel, only in its own time frame; every non-zero label is a node; 0 is no node) is preserved by each basic action under its documented precondition: C07_W_seg_add_node / _add_node_gen, C07_W_seg_del_node / _del_node_px, C07_W_seg_upd_seg_grow / _shrink / _gen, C07_W_seg_add_edge, C07_W_seg_del_edge, C07_W_seg_upd_attrs, C07_W_seg_upd_track (with C07_pre_write_of_W_seg linking the general mid-stroke forms to W_seg); for the whole paint/erase stroke, for every state and every stroke: C07_paint_exact (a stroke that returns normally leaves the array exactly as painted, same shape) C07_paint_error_restores (a stroke that raises at any point, also after the rollback of a refused forceable action, leaves the previous array bit for bit) and, for states satisfying W_seg in which 'time' is not a regionprops key, C07_paint_undo (Tracks.undo right after a successful stroke succeeds and restores the previous array bit for bit; the example C07_undo_needs_W_seg shows the hypothesis is needed). Every clause has a theorem about the model. C07_run_edge_calls (every state reachable from a well-formed state by any sequence, of any length, of edge-level calls - add / delete edge with and without force, swap, track queries, fresh ids - satisfies the complete invariant WF: dictionaries, forest, track ids, lineage ids, lookups, label/node correspondence, fresh features; induction over the call list); C07_run_node_calls (the same reachability statement with UserAddNode and UserDeleteNode included, accepted or refused, each UserAddNode respecting its documented preconditions - integer time / track id, no caller-supplied lineage id, and with a segmentation a non-zero id and background pixels of its own frame; Proofs/EditWFNodeExample.v shows three accepted calls outside these preconditions that break the invariant); C07_sessions (from a well-formed state with an empty history, EVERY state reached along ANY sequence - of any length - of calls of the WHOLE public interface of the edit machine - edge, swap, node, attribute and stroke edits, undo, redo, queries - accepted or refused, satisfies the complete invariant WF; hypotheses: three configuration facts no call changes, and the documented per-call preconditions of UserAddNode / node calls without segmentation at the moment each call is made; strokes, edge calls, attribute updates, undo and redo have none); C07_paint and C07_run_paint_calls (every accepted stroke yields a well-formed state; every refused stroke too, the rolled-back one included); C07_user_actions_are_generated (the seven composite user actions of the model equal, for all arguments, the code translated on every run from the current user_actions/*.py); C07_sessions_from_construction (the start state need not be assumed well formed: for every valid raw solution - forest, labels and nodes one-to-one, fresh feature table, true oracle partitions - the state constructed by enabling the core features with recomputation is well formed, so every session over the whole interface from it stays well formed). C07_core_is_generated: one level further down, the queries, the node-id counter, Tracks.undo / redo and the seven basic actions with their inverses of the model equal the code translated on every run from solution_tracks.py, tracks.py, _track_annotator.py and actions/*.py (Gen/Core_gen.v; statement in Proofs/CoreTieBundle.v). C07_direct_add_node_refuted: the known finding F-07b as machine-checked refutations (a direct UserAddNode outside its documented preconditions is accepted and breaks the correspondence; three witnesses reproduce it on the implementation and are reported as KNOWN-FINDING). C07_sessions_from_any_construction: the same for a graph that arrives with managed features of its own - the constructor as the code runs it (Model/EditCtor.v construct_any: the id lookups filled by a scan of the supplied ids, every core feature the first node carries activated at face value, every other one computed) yields a well-formed state whenever the detected features are valid on all nodes (supplied_ok), for every combination of supplied and computed features, and every session from it stays well formed (Proofs/EditCtor.v; EditCtorExample.v shows that invalid supplied ids break it); tie: constructor correspondence on every generated raw solution (harness/ctor.py). C07_accessors_are_generated: the array and attribute accessors the other translators take as primitives - Tracks.get_pixels, set_pixels, get_time, get_times, get_node_attr, get_nodes_attr, _set_node_attr, _set_nodes_attr - equal, on stated domains, the code translated on every run from data_model/tracks.py (Gen/Accessors_gen.v, harness/translate_accessors.py, Proofs/AccessorsTie.v; decorators such as lru_cache, overrides in SolutionTracks and a segmentation property are refused); outside the domains Python raises where the model is total (missing node / frame for get_pixels, index outside the frame for set_pixels): whatever get_pixels returns lies inside the domain of set_pixels. Erase strokes that span several frames (one UserUpdateSegmentation(0, groups) whose groups lie in two or three frames, each removing all or part of its node) are outside the edit machine's single-frame stroke operation and are checked on the implementation alone by multiframe_erase_scenarios: label / node correspondence and get_pixels after the stroke, after undo (array restored bit for bit) and after redo (painted array reproduced).",
     "level_note": 'Trusted: Coq kernel, extraction (ExtrOcamlBasic only), OCaml driver drv_Edit.ml, Python harness and oracles. Modelled, not verified: networkx DiGraph dict semantics, numpy indexing, skimage regionprops (symbolic: value = function of key, mask, spacing), psygnal. The theorems are about the hand-written model coq/Model/Edit.v; the tie to /repo is the step-by-step differential execution of the extracted model against the implementation on every run. Tied to the source in a second way: the history mechanism (action_history.py) and the seven composite user actions (user_actions/*.py) are re-translated on every run by fail-closed translators (harness/translate_history.py, translate_user_actions.py; closed idiom tables; runtime combinators Model/PyRt.v) and proved equal to the hand-written model for all arguments (Proofs/HistoryTie.v, UserActionsTie.v); trusted there: the idiom tables and combinators, and the stated conventions (get_time / successors on a missing node do not raise, StopIteration reported as KeyError, feature keys never None).',
     "design_ref": "DESIGN.md section 9 (C07)",
     "assumptions": ['the caller does not pass a lineage id to UserAddNode (outside its documented domain)', 'track_id and lineage_id features stay enabled during editing sessions', 'labels/ids are positive; times are frame indices within the array'],
@@ -19,8 +19,106 @@ META = {
 }
 
 
+def multiframe_erase_scenarios(ctx, n):
+    """implementation-only oracle for erase strokes that span SEVERAL frames (the edit machine's strokes live in
+    one frame; a non-zero label may only be painted in one frame, erasing is not restricted): one
+    UserUpdateSegmentation(0, groups) whose groups lie in two or three frames, each group removing all or part
+    of its node. After the stroke, after undo and after redo: every node labels at least one pixel and only in
+    its own frame, every label is a node, get_pixels(node) is exactly the node's pixels; undo restores the array
+    bit for bit and redo reproduces the painted array."""
+    import networkx as nx
+    import numpy as np
+    from funtracks.data_model import SolutionTracks
+    from funtracks.user_actions import UserUpdateSegmentation
+
+    rng = ctx.rng
+    out, stats = [], {"multiframe_scenarios": 0, "multiframe_groups": 0, "multiframe_partial_groups": 0}
+
+    def corr(tr, label):
+        seg = np.asarray(tr.segmentation)
+        for n_ in tr.graph.nodes:
+            where = [k for k in range(seg.shape[0]) if (seg[k] == n_).any()]
+            if where != [int(tr.get_time(n_))]:
+                return "%s: node %d (time %d) labels pixels in frames %s" % (label, n_, tr.get_time(n_), where)
+            px = tr.get_pixels(n_)
+            want = np.nonzero(seg[int(tr.get_time(n_))] == n_)
+            if px is None or any(not np.array_equal(a, b) for a, b in zip(px[1:], want)) or not (np.asarray(px[0]) == tr.get_time(n_)).all():
+                return "%s: get_pixels(%d) is not the node's pixel set" % (label, n_)
+        for l in np.unique(seg):
+            if l and int(l) not in tr.graph.nodes:
+                return "%s: label %d (%d px) belongs to no node" % (label, int(l), int((seg == l).sum()))
+        return None
+
+    for k in range(n):
+        T = rng.randint(3, 4)
+        seg = np.zeros((T, 8, 10), dtype=rng.choice([np.uint16, np.int64]))
+        ids = rng.sample(range(1, 40), T + 1)
+        g = nx.DiGraph()
+        for tm in range(T):
+            seg[tm, 1:4, 1:7] = ids[tm]
+            g.add_node(ids[tm], time=tm)
+            if tm:
+                g.add_edge(ids[tm - 1], ids[tm])
+        seg[T - 1, 5:7, 2:6] = ids[T]
+        g.add_node(ids[T], time=T - 1)
+        g.add_edge(ids[T - 2], ids[T])
+        tr = SolutionTracks(g, segmentation=seg, ndim=3)
+        frames = sorted(rng.sample(range(T), rng.randint(2, min(3, T))))
+        rng.shuffle(frames)
+        groups, partial = [], 0
+        for tm in frames:
+            node = ids[tm]
+            full = rng.random() < 0.45
+            region = np.zeros(seg.shape[1:], dtype=bool)
+            if full:
+                region[:] = True
+            else:
+                region[1:4, 1:rng.randint(2, 6)] = True
+                partial += 1
+            idx = np.nonzero(region & (np.asarray(tr.segmentation)[tm] == node))
+            groups.append(((np.full(len(idx[0]), tm), *idx), int(node)))
+        stats["multiframe_scenarios"] += 1
+        stats["multiframe_groups"] += len(groups)
+        stats["multiframe_partial_groups"] += partial
+        desc = {"scenario": k, "nodes": {int(i_): int(g.nodes[i_]["time"]) for i_ in ids}, "edges": [list(e) for e in g.edges],
+                "erase": [{"frame": int(px[0][0]), "node": ov, "pixels": int(len(px[0]))} for px, ov in groups]}
+        before = np.array(tr.segmentation)
+        bad = None
+        label = "stroke"
+        try:
+            for px, _ in groups:
+                tr.set_pixels(px, 0)
+            painted = np.array(tr.segmentation)
+            UserUpdateSegmentation(tr, 0, groups, current_track_id=1)
+            bad = corr(tr, "after the erase stroke over frames %s" % [int(px[0][0]) for px, _ in groups])
+            if bad is None and not np.array_equal(np.asarray(tr.segmentation), painted):
+                bad = "the stroke did not leave the array as painted"
+            if bad is None:
+                label = "undo"
+                tr.undo()
+                bad = corr(tr, "after undo")
+                if bad is None and not np.array_equal(np.asarray(tr.segmentation), before):
+                    bad = "undo did not restore the array bit for bit (%d pixels differ)" % int((np.asarray(tr.segmentation) != before).sum())
+            if bad is None:
+                label = "redo"
+                tr.redo()
+                bad = corr(tr, "after redo")
+                if bad is None and not np.array_equal(np.asarray(tr.segmentation), painted):
+                    bad = "redo did not reproduce the painted array (%d pixels differ)" % int((np.asarray(tr.segmentation) != painted).sum())
+        except Exception as e:  # noqa: BLE001
+            bad = "%s raised %s: %s" % (label, type(e).__name__, str(e)[:120])
+        if bad:
+            out.append({"what": "erase stroke over several frames: " + bad, "input": desc, "signature": "C07:multiframe-erase"})
+    return out, stats
+
+
 def run(ctx):
-    return G.run_property(ctx, "C07", n_quick=400, n_thorough=6000, seg_p=1.0)
+    res = G.run_property(ctx, "C07", n_quick=400, n_thorough=6000, seg_p=1.0)
+    viol, stats = multiframe_erase_scenarios(ctx, 30 if ctx.quick() else 400)
+    res["violations"] = list(res.get("violations", [])) + viol
+    res.setdefault("stats", {}).update(stats)
+    res["evaluations"] = res.get("evaluations", 0) + 3 * stats["multiframe_scenarios"]
+    return res
 
 
 def replay(ctx, payload):
